@@ -27,6 +27,11 @@ pub struct Payload {
     pub capture: Arc<std::sync::atomic::AtomicBool>,
 }
 
+/// payload of the second context (replacement children carry it)
+pub struct SidePayload {
+    pub tok: HeapTok,
+}
+
 /// set when the context payload of the running case has been destroyed; every implementor of the
 /// family lives inside an object that carries the context, so none of them may be destroyed
 /// after that point (the context would not have outlived the object)
@@ -130,10 +135,15 @@ cglue_trait_group!(RtGroup, Rt, { RtX, Clone });
 pub struct LfI {
     t: HeapTok,
     v: AtomicU64,
+    /// not inside an object that carries the case's main context (a replacement leaf owned by the harness)
+    detached: bool,
 }
 impl LfI {
     fn new(v: u64) -> Self {
-        LfI { t: HeapTok::new(v), v: AtomicU64::new(v) }
+        LfI { t: HeapTok::new(v), v: AtomicU64::new(v), detached: false }
+    }
+    fn detached(v: u64) -> Self {
+        LfI { t: HeapTok::new(v), v: AtomicU64::new(v), detached: true }
     }
 }
 impl Lf for LfI {
@@ -158,7 +168,9 @@ impl MdX for LfI {
 cglue_impl_group!(LfI, LfRoGroup, { MdX });
 impl Drop for LfI {
     fn drop(&mut self) {
-        instance_dropped();
+        if !self.detached {
+            instance_dropped();
+        }
     }
 }
 impl Drop for MdI {
@@ -304,6 +316,8 @@ pub enum Op {
     LeafOf(u16),
     LeafRef(u16),
     LeafMut(u16),
+    /// replace the mutably borrowed wrapped child by another object (through the `&mut`) and drop the old one
+    ReplaceLeafMut(u16),
     LeafGroupRef(u16),
     CloneOf(u16),
     /// cast a group to a subset (bit0: extra trait, bit1: Clone) and back
@@ -332,6 +346,8 @@ struct St {
     transfers: u32,
     derived: u32,
     borrowed: u32,
+    replaced: u32,
+    side_tok: u32,
 }
 
 fn holders(pool: &[Obj]) -> usize {
@@ -371,8 +387,15 @@ fn body_inner(vc: &Ctx, case: &Case) -> Result<St, Fail> {
     let mut arc = Some(Arc::new(Payload { tok: HeapTok::new(0xC7), drop_site: drop_site.clone(), capture: capture.clone() }));
     let weak = Arc::downgrade(arc.as_ref().unwrap());
     let ptok = arc.as_ref().unwrap().tok.id();
+    // a second, unrelated context for replacement children, and the leaves they borrow (declared
+    // before the pool: they outlive every object)
+    let side = Arc::new(SidePayload { tok: HeapTok::new(0x51DE) });
+    // (the wrapped child type borrows for 'static: the replacement leaves are leaked boxes that
+    // are taken back after every object is gone)
+    let mut spare_raw: Vec<*mut LfI> = Vec::new();
     let mut pool: Vec<Obj> = Vec::new();
     let mut st = St::default();
+    st.side_tok = side.tok.id();
     // the context handle reaches the object by one of several routes (all must give a handle that
     // clones and releases through the functions of the module that made it)
     let ctx_no = std::cell::Cell::new(0u32);
@@ -537,6 +560,26 @@ fn body_inner(vc: &Ctx, case: &Case) -> Result<St, Fail> {
                         st.borrowed += 1;
                     }
                     _ => {}
+                }
+            }
+            Op::ReplaceLeafMut(c) => {
+                let i = pick(*c, n);
+                if let (Obj::Root(o, v), true) = (&mut pool[i], spare_raw.len() < 4) {
+                    let raw = Box::into_raw(Box::new(LfI::detached(900 + spare_raw.len() as u64)));
+                    spare_raw.push(raw);
+                    let leaf: &'static mut LfI = unsafe { &mut *raw };
+                    // the child lent by `&mut self` is an object of its own: it can be swapped for
+                    // another one (carrying another context) and the old one dropped; that must
+                    // release what the old child held - not what its parent holds
+                    let fresh: LfBase<'_, &mut cglue::trait_group::c_void, Cx> = trait_obj!((leaf, CArc::<SidePayload>::from(side.clone()).into_opaque()) as Lf);
+                    let slot = o.rt_leaf_mut();
+                    let old = std::mem::replace(slot, fresh);
+                    std::hint::black_box(old.lf_val());
+                    drop(old);
+                    ensure!(o.rt_val() == *v, "C01:ret", "{when}: root answers {} after its borrowed child was replaced", o.rt_val());
+                    st.borrowed += 1;
+                    st.replaced += 1;
+                    st.derived += 1;
                 }
             }
             Op::CloneOf(c) => {
@@ -737,6 +780,10 @@ fn body_inner(vc: &Ctx, case: &Case) -> Result<St, Fail> {
         drop(a);
     }
     let _ = ptok;
+    for raw in spare_raw {
+        drop(unsafe { Box::from_raw(raw) });
+    }
+    drop(side);
     Ok(st)
 }
 
@@ -746,10 +793,18 @@ pub fn check(vc: &Ctx, prop: &str, case: &Case) -> CaseResult {
         Ok(st) => st,
         Err(f) => return filter(prop, f),
     };
-    let leak_tolerated = st.leak > 0 && vc.args.known.contains(K_RETTMP);
+    let leak_tolerated = (st.leak > 0 || st.replaced > 0) && vc.args.known.contains(K_RETTMP);
+    // (a replacement child parked in the temporary storage is never dropped either - the same
+    // known finding: its context payload, the side token, then never dies)
+    let side_tolerated = st.replaced > 0 && vc.args.known.contains(K_RETTMP);
+    let side_tok = st.side_tok;
+    if st.replaced > 0 && !side_tolerated && tok::drops(side_tok) == 0 {
+        // the same finding seen from the replacement child's side: it belongs to C07's list
+        return filter(prop, Fail::new(K_RETTMP, "a child parked in an object's temporary-return storage is never dropped: the context clone it carries is not released".to_string()));
+    }
     // with the known ret_tmp leak the context payload (token 0, created first) never dies:
     // exactly that is tolerated, nothing else
-    let bad: Vec<_> = tok::mismatches(|_| 1).into_iter().filter(|m| !(leak_tolerated && *m == (0, 1, 0))).collect();
+    let bad: Vec<_> = tok::mismatches(|_| 1).into_iter().filter(|m| !(leak_tolerated && st.leak > 0 && *m == (0, 1, 0)) && !(side_tolerated && *m == (side_tok, 1, 0))).collect();
     if !bad.is_empty() {
         return filter(prop, Fail::new("C06:drop-count", format!("values whose destructor ran a number of times other than once (token, expected, seen): {:?}", &bad[..bad.len().min(5)])));
     }
@@ -788,6 +843,7 @@ fn op_strategy() -> impl Strategy<Value = Op> {
         3 => any::<u16>().prop_map(Op::LeafOf),
         1 => any::<u16>().prop_map(Op::LeafRef),
         1 => any::<u16>().prop_map(Op::LeafMut),
+        1 => any::<u16>().prop_map(Op::ReplaceLeafMut),
         1 => any::<u16>().prop_map(Op::LeafGroupRef),
         2 => any::<u16>().prop_map(Op::CloneOf),
         2 => (any::<u16>(), 0u8..3).prop_map(|(i, w)| Op::CastBack(i, w)),
